@@ -649,3 +649,85 @@ func modeC08(e *Env) {
 			Attempts: []AttemptPlan{a}, Note: "zero-timestamps"})
 	}
 }
+
+// ---- C15 (stream half): interleavings and re-announcements of table maps ----------------------------
+
+func init() {
+	modes["c15b"] = modeC15b
+	modes["c09s"] = e2eMode("c09", func(r *rand.Rand) Col { return randomCol(r) }, false)
+}
+
+func modeC15b(e *Env) {
+	cfgs := allCfgs()
+	n := e.N(60, 1200)
+	for i := 0; i < n; i++ {
+		cfg := cfgs[i%len(cfgs)]
+		gp := smallGP()
+		gp.MaxCols = 4
+		// table variants: A and C share table id 1 (id re-use for another table), B has id 2, A2 is A under a new id,
+		// A3 re-announces A's id and name with other column types (same column count and names)
+		A := genTable(e.R, 1, gp)
+		B := genTable(e.R, 2, gp)
+		C := genTable(e.R, 1, gp)
+		for C.DB+"."+C.Name == A.DB+"."+A.Name {
+			C = genTable(e.R, 1, gp)
+		}
+		A2 := &Table{ID: 7, DB: A.DB, Name: A.Name, Cols: A.Cols}
+		A3 := &Table{ID: 1, DB: A.DB, Name: A.Name}
+		for _, c := range A.Cols {
+			nc := colInt(pickS(e.R, "tiny", "short", "long"), c.Uns)
+			if c.Kind == "varchar" || c.Kind == "char" {
+				nc = colVarchar(pick(e.R, 30, 400))
+			}
+			nc.Name, nc.Nullable, nc.Uns = c.Name, c.Nullable, c.Uns
+			A3.Cols = append(A3.Cols, nc)
+		}
+		variants := []*Table{A, B, C, A2, A3, A, C}
+		l := &Log{Cfg: cfg}
+		f := &LogFile{Name: "mysql-bin.000001"}
+		l.Files = []*LogFile{f}
+		ts := uint32(1600000000)
+		ntx := 2 + e.R.Intn(4)
+		for x := 0; x < ntx; x++ {
+			u := &Unit{U: "txxid"}
+			u.Evs = append(u.Evs, &Ev{K: "query", TS: ts, Cat: "begin", DB: "d", SQL: "BEGIN"})
+			for s := 0; s < 1+e.R.Intn(4); s++ {
+				t := variants[e.R.Intn(len(variants))]
+				u.Evs = append(u.Evs, &Ev{K: "tablemap", TS: ts, Tbl: t, Tail: optTail(e.R)})
+				if e.R.Intn(3) == 0 {
+					// a second map announced before the rows (multi-table statement); rows follow for one of them
+					t2 := variants[e.R.Intn(len(variants))]
+					if t2.ID != t.ID {
+						u.Evs = append(u.Evs, &Ev{K: "tablemap", TS: ts, Tbl: t2})
+					}
+				}
+				u.Evs = append(u.Evs, genRowsEv(e.R, pickS(e.R, "write", "update", "delete"), t, gp, ts))
+				ts++
+			}
+			u.Evs = append(u.Evs, &Ev{K: "xid", TS: ts})
+			f.Units = append(f.Units, u)
+		}
+		l.Layout()
+		atts := []AttemptPlan{defaultAttempt()}
+		if i%5 == 4 {
+			// the mapper answers with a table of another column count: error, not mis-attribution
+			a := defaultAttempt()
+			names := []string{}
+			for k := range l.Tables() {
+				names = append(names, k)
+			}
+			sortStrings(names)
+			a.MapperFault = "mismatch:" + names[e.R.Intn(len(names))]
+			atts = []AttemptPlan{a, defaultAttempt()}
+		}
+		RunStreamScenario(e.Rec, &StreamScenario{ID: i + 1, Fam: "c15", Log: l, Start: l.Boundaries()[0], ServerID: 15, Attempts: atts, Note: "reannounce"})
+	}
+}
+
+func sortStrings(a []string) {
+	for i := 1; i < len(a); i++ {
+		for j := i; j > 0 && a[j] < a[j-1]; j-- {
+			a[j], a[j-1] = a[j-1], a[j]
+		}
+	}
+}
